@@ -42,7 +42,9 @@ CONSTANTS
     T,            \* dishonest threshold (polynomial degree)
     CorruptSets,  \* set of admissible corrupt sets (each of size <= T)
     Classes,      \* adversary classes: records [name, kinds (enabled deviation kinds, see
-                  \* the Adversary section), k (deviation budget), ord (delivery orders)]
+                  \* the Adversary section), k (deviation budget), ord (delivery orders),
+                  \* script (<<stage, corrupt member>> -> messages it sends there, for
+                  \* directed counterexamples; the empty function for a free adversary)]
     FixSets,      \* sets of repairs present in the modelled code ({} = the pinned code)
     Plans         \* admissible per-message-state caps on the deviations spent (sequences of 6)
 
@@ -316,14 +318,16 @@ RevIds(x) == {e.id : e \in x.p}
 I11(h, m) ==
     LET v0 == FlushInactive(m, h, Claims(m.rcv))
         d == DedupMsgs(m.rcv)
-        \* loop 1: isValidMisbehavedEphemeralKeysMessage on the deduplicated messages
+        \* loop 1: isValidMisbehavedEphemeralKeysMessage on the deduplicated messages.
+        \* Pinned code: "reveals the key of an operating member" is evaluated with
+        \* the view as it evolves in this loop; repaired (F3): with the view before it.
         val(v, x) ==
             LET ok == /\ m.exp \subseteq RevIds(x)
-                      /\ IF "F3" \in Fixes THEN RevIds(x) \subseteq m.exp
-                         ELSE \A i \in RevIds(x) : i \notin Op(v)
+                      /\ \A i \in RevIds(x) : i \notin Op(IF "F3" \in Fixes THEN v0 ELSE v)
             IN IF ok THEN v ELSE MarkDQ(v, x.claim)
         v1 == FoldLeft(val, v0, d)
-        \* loop 2: recoverMisbehavedShares on *all* received messages
+        \* loop 2: recoverMisbehavedShares on *all* received messages (pinned code)
+        \* or on the deduplicated ones (F6)
         a0 == [v |-> v1, rec |-> <<>>, fatal |-> FALSE]
         entry(a, X, e) ==
             LET mis == e.id
@@ -333,7 +337,12 @@ I11(h, m) ==
             IN
             IF a.fatal THEN a
             ELSE IF mis = h THEN dqX
-            ELSE IF (IF "F3" \in Fixes THEN mis \notin m.exp ELSE mis \in Op(a.v)) THEN a   \* skip
+            \* key of an operating member: skipped (pinned: current view; F3: view
+            \* at the start of the recovery)
+            ELSE IF mis \in Op(IF "F3" \in Fixes THEN v1 ELSE a.v) THEN a
+            \* F3: a key for a member outside QUAL, a non existent index or the
+            \* revealing member itself disqualifies the revealing member
+            ELSE IF "F3" \in Fixes /\ (mis \notin m.qual \/ mis = X) THEN dqX
             ELSE IF ~HasEphKey(m, X, mis) THEN [a EXCEPT !.fatal = TRUE]
             ELSE IF ~e.ok THEN dqX
             ELSE IF ~HasEphKey(m, mis, X) THEN dqX
@@ -358,7 +367,8 @@ PtsTerm(s, okFor) == IF okFor = Members THEN <<"true", s>> ELSE <<"fake", s, okF
 RecTerm(x, prov) == IF Cardinality(prov) >= T + 1 THEN <<"true", x>> ELSE <<"part", x, prov>>
 I12(h, m) ==
     LET A == {<<"true", h>>} \cup {PtsTerm(s, m.pts[s]) : s \in m.vpts}
-        B == {RecTerm(x, m.rec[x]) : x \in DOMAIN m.rec}
+        \* F3: a reconstructed key is not added for a member whose valid points are held
+        B == {RecTerm(x, m.rec[x]) : x \in {y \in DOMAIN m.rec : "F3" \in Fixes => y \notin m.vpts}}
         bag == [x \in A \cup B |-> (IF x \in A THEN 1 ELSE 0) + (IF x \in B THEN 1 ELSE 0)]
         nil == \E o \in Op(m) \ {h} : \E q \in m.qual :
                   q \notin m.vpts /\ q \in DOMAIN m.rec /\ o \notin m.rec[q]
@@ -435,10 +445,14 @@ RevChoices(c, b) ==
     LET ids == (IF Has("rev.member") THEN Members \ {c} ELSE RevBase)
                  \cup (IF Has("rev.self") THEN {c} ELSE {})
                  \cup (IF Has("rev.badid") THEN {0, N + 1} ELSE {})
-        cost(E) == Cardinality({i \in ids : (i \in RevBase) # (i \in {e.id : e \in E})})
-                   + Cardinality({e \in E : ~e.ok})
-        all == UNION { { {[id |-> i, ok |-> g[i]] : i \in S} : g \in [S -> BOOLEAN] } : S \in SUBSET ids }
-    IN {<<E, cost(E)>> : E \in {F \in all : cost(F) <= b /\ (Has("rev.wrongkey") \/ \A e \in F : e.ok)}}
+        base == RevBase \cap ids
+        \* toggle at most b ids (add / drop), then reveal a wrong key for some of them
+        togg == {D \in SUBSET ids : Cardinality(D) <= b}
+        sets == {(base \ D) \cup (D \ base) : D \in togg}
+        cost0(S) == Cardinality((S \ base) \cup (base \ S))
+        withKeys(S) == {<<{[id |-> i, ok |-> i \notin W] : i \in S}, cost0(S) + Cardinality(W)>> :
+                          W \in {X \in SUBSET S : (Has("rev.wrongkey") \/ X = {}) /\ cost0(S) + Cardinality(X) <= b}}
+    IN UNION {withKeys(S) : S \in sets}
 
 \* a corrupt member no running honest member listens to any more sends nothing
 Dead(c) ==
@@ -527,7 +541,9 @@ Adversary ==
     /\ IsAdvStage(pos[1])
     /\ pos[2] \in corrupt
     /\ LET c == pos[2] IN
-       /\ \E ch \in (IF Dead(c) THEN { << <<>>, 0 >> } ELSE AdvChoices(c, Cap)) :
+       /\ \E ch \in (IF Dead(c) THEN { << <<>>, 0 >> }
+                    ELSE IF <<StageName, c>> \in DOMAIN cls.script THEN { << cls.script[<<StageName, c>>], 0 >> }
+                    ELSE AdvChoices(c, Cap)) :
              /\ out' = [out EXCEPT ![c] = ch[1]]
              /\ budget' = budget - ch[2]
        /\ pos' = NextPos(pos[1], c, mem, corrupt)
